@@ -159,13 +159,19 @@ CLAIMS = {
         "design_ref": "DESIGN.md §4 C08",
     },
     "C09": {
-        "text": "For the 19 countries with computed national digits: IBAN.generate followed by validate(validate_bban=True) on "
-                "component combinations of every width; for every country with positions: nationally valid IBANs (accept side "
-                "chosen by the extracted published-rule spec) are decomposed through the accessors and rebuilt with "
-                "BBAN.from_components, which must reproduce the BBAN at every position covered by a component; model/implementation "
-                "correspondence on generate and on the decomposition. Theorems: see evidence obligation_names (partial).",
-        "note": COMMON_NOTE,
-        "technique": "Coq model + correspondence + spec-selected inputs; theorems partial",
+        "text": "Proved: C09_generated_valid (for every country whose default algorithm computes digits - C09_countries_obl: "
+                "exactly the 19 the property names - every IBAN that IBAN.generate returns passes the model's "
+                "BBAN.validate_national_checksum: the digits written into the field are what the algorithm computes from the "
+                "placed components, and the default validate recomputes and compares), C09_rebuild (for every country with "
+                "positions and every structurally conforming, nationally valid BBAN: BBAN.from_components on the components read "
+                "off it succeeds, has the same length and agrees with it at every component's position; filler positions are "
+                "unconstrained), via Proofs/PlaceFacts.v, RebuildFacts.v, ComputeShape.v under data obligations on the regenerated "
+                "tables (layout, widths, accepted fields, no bank-specific algorithm outside DE). Random draws (the other producer "
+                "the property names) funnel through from_components in the model but are covered by streams only (C13). Streams: "
+                "generate + validate(validate_bban=True) on component combinations of every width for the 19 countries incl. "
+                "edge digits; decompose/rebuild on spec-selected nationally valid IBANs for every country; correspondence.",
+        "note": COMMON_NOTE + " For the random producer the theorem is not proved (partial there).",
+        "technique": "Coq proof (placement loop, check-digit agreement, rebuild) + data obligations + correspondence + spec-selected inputs",
         "design_ref": "DESIGN.md §4 C09",
     },
     "C13": {
